@@ -31,6 +31,12 @@ N16 (a := <access path or pure expression>) ... a ...  ->  the expression in pla
     (a bound only there, uses lexically after it, the operands not written in between)
 N17 x.data.update({k: v, ...}) / x.data.update(k=v, ...) / x.data.update((k, v) for a in it)  ->  x.data[k] = v ... (a loop for the
     generator form; values must not read the dictionary)
+N19 v = []; for x in it: [if c:] v.append(e)   ->   v = [e for x in it if c]      (adjacent, x not used afterwards, v not read in the loop)
+N20 f'..{a}..{b:d}'  ->  '..%s..%d' % (a, b)      (plain replacement fields only)
+N21 while True: if c: break; body   ->   while not c: body          (the guard is the first statement, the loop has no else)
+N18 imports of package modules under another name (`from . import trees as T`, `import trees.trees as T`) and direct imports
+    of their functions / constants (`from .trees import children`)  ->  `from . import trees` and `trees.children`  (scopes that
+    bind the name themselves are left alone)
 N5x alias.helper(args) / helper(args), helper a public or foreign-module function whose body is `return <expr>` and
     whose name no rule knows  ->  <expr>, module-level names of the helper's module qualified for the caller
 N8  list(reversed(x)) -> x[::-1];  sorted(d.keys()) / for k in d.keys() / k in d.keys()  ->  without .keys()
@@ -387,6 +393,18 @@ def _n4_unroll(st, func):
     return out
 
 
+def _n21_whiletrue(st):
+    if not (isinstance(st, ast.While) and isinstance(st.test, ast.Constant) and st.test.value is True and not st.orelse
+            and len(st.body) >= 2 and isinstance(st.body[0], ast.If) and not st.body[0].orelse
+            and len(st.body[0].body) == 1 and isinstance(st.body[0].body[0], ast.Break)):
+        return None
+    c = st.body[0].test
+    if any(isinstance(x, (ast.NamedExpr, ast.Yield, ast.YieldFrom, ast.Await)) for x in ast.walk(c)):
+        return None
+    neg = c.operand if isinstance(c, ast.UnaryOp) and isinstance(c.op, ast.Not) else _loc(ast.UnaryOp(op=ast.Not(), operand=c), c)
+    return [_loc(ast.While(test=neg, body=st.body[1:], orelse=[]), st)]
+
+
 def _n13_annassign(st):
     """x: T = v  ->  x = v ;  x: T  ->  pass   (annotations of locals are never evaluated)"""
     if isinstance(st, ast.AnnAssign) and isinstance(st.target, ast.Name):
@@ -424,7 +442,16 @@ def _expr_helpers(tree, public_ok=None):
             a = st.args
             if a.vararg or a.kwarg or a.kwonlyargs or a.defaults or a.posonlyargs or st.decorator_list:
                 continue
-            body = [s for s in st.body if not (isinstance(s, ast.Expr) and isinstance(s.value, ast.Constant))]
+            def _noop(s):
+                # docstrings, bare constants, `pass`, and calls of pure builtins on constants say nothing
+                if isinstance(s, ast.Pass):
+                    return True
+                if isinstance(s, ast.Expr) and isinstance(s.value, ast.Constant):
+                    return True
+                return isinstance(s, ast.Expr) and isinstance(s.value, ast.Call) and isinstance(s.value.func, ast.Name) \
+                    and s.value.func.id in PURE_BUILTINS and all(isinstance(a_, ast.Constant) for a_ in s.value.args) \
+                    and not s.value.keywords
+            body = [s for s in st.body if not _noop(s)]
             if len(body) == 1 and isinstance(body[0], ast.Return) and body[0].value is not None:
                 e = body[0].value
                 if any(isinstance(n, (ast.Yield, ast.YieldFrom, ast.Await, ast.NamedExpr)) for n in ast.walk(e)):
@@ -933,6 +960,102 @@ def _n17_update(st):
     return out
 
 
+# --------------------------------------------------------------------------- N19 collecting loops, N20 f-strings
+
+def _n19_collect(func):
+    """v = []  directly followed by a loop that only appends to v  ->  a list comprehension."""
+    for lst in _stmt_lists(func):
+        for i in range(len(lst) - 1):
+            st, lp = lst[i], lst[i + 1]
+            if not (isinstance(st, ast.Assign) and len(st.targets) == 1 and isinstance(st.targets[0], ast.Name)
+                    and isinstance(st.value, ast.List) and not st.value.elts and isinstance(lp, ast.For) and not lp.orelse
+                    and len(lp.body) == 1):
+                continue
+            v = st.targets[0].id
+            body = lp.body[0]
+            conds = []
+            while isinstance(body, ast.If) and not body.orelse and len(body.body) == 1:
+                conds.append(body.test)
+                body = body.body[0]
+            if not (isinstance(body, ast.Expr) and isinstance(body.value, ast.Call) and isinstance(body.value.func, ast.Attribute)
+                    and body.value.func.attr == 'append' and isinstance(body.value.func.value, ast.Name)
+                    and body.value.func.value.id == v and len(body.value.args) == 1 and not body.value.keywords):
+                continue
+            elt = body.value.args[0]
+            if v in _names(elt) or v in _names(lp.iter) or any(v in _names(c) for c in conds):
+                continue
+            if any(isinstance(x, (ast.Yield, ast.YieldFrom, ast.Await, ast.NamedExpr)) for x in ast.walk(lp)):
+                continue
+            tnames = _names(lp.target)
+            # the loop variable must not be looked at after the loop (a comprehension keeps it to itself), nor be bound before
+            # every other read of the name happens under a binder of its own (another loop or comprehension over it)
+            parents = {}
+            for p_ in ast.walk(func):
+                for c_ in ast.iter_child_nodes(p_):
+                    parents[c_] = p_
+            inside_lp = set(id(x) for x in ast.walk(lp))
+            leak = False
+            for x in _own_walk(func):
+                if isinstance(x, ast.Name) and x.id in tnames and id(x) not in inside_lp:
+                    if isinstance(x.ctx, ast.Store):
+                        b_ = parents.get(x)
+                        while b_ is not None and not isinstance(b_, (ast.For, ast.comprehension)):
+                            b_ = parents.get(b_)
+                        if b_ is None or not any(y is x for y in ast.walk(b_.target)):
+                            leak = True         # assigned as a plain variable somewhere: leave the scoping alone
+                        continue
+                    a_ = parents.get(x)
+                    bound = False
+                    while a_ is not None and a_ is not func:
+                        if isinstance(a_, ast.For) and x.id in _names(a_.target) and not any(y is x for y in ast.walk(a_.iter)):
+                            bound = True
+                            break
+                        if isinstance(a_, (ast.ListComp, ast.SetComp, ast.GeneratorExp, ast.DictComp)) and any(
+                                x.id in _names(g_.target) for g_ in a_.generators):
+                            bound = True
+                            break
+                        a_ = parents.get(a_)
+                    if not bound:
+                        leak = True
+            if leak:
+                continue
+            comp = ast.ListComp(elt=elt, generators=[ast.comprehension(target=lp.target, iter=lp.iter, ifs=conds, is_async=0)])
+            lst[i:i + 2] = [_loc(ast.Assign(targets=[ast.Name(id=v, ctx=ast.Store())], value=comp), st)]
+            return True
+    return False
+
+
+class _FStr(ast.NodeTransformer):
+    def __init__(self):
+        self.count = 0
+
+    def visit_JoinedStr(self, n):
+        self.generic_visit(n)
+        fmt, args = '', []
+        for part in n.values:
+            if isinstance(part, ast.Constant) and isinstance(part.value, str):
+                fmt += part.value.replace('%', '%%')
+            elif isinstance(part, ast.FormattedValue) and part.conversion in (-1, 115):
+                spec = ''
+                if part.format_spec is not None:
+                    if not (isinstance(part.format_spec, ast.JoinedStr) and len(part.format_spec.values) == 1
+                            and isinstance(part.format_spec.values[0], ast.Constant)
+                            and part.format_spec.values[0].value in ('d', 's')):
+                        return n
+                    spec = part.format_spec.values[0].value
+                fmt += '%d' if spec == 'd' else '%s'
+                args.append(part.value)
+            else:
+                return n
+        if not args:
+            return n
+        self.count += 1
+        right = args[0] if len(args) == 1 and not isinstance(args[0], ast.Tuple) else ast.Tuple(elts=args, ctx=ast.Load())
+        if len(args) == 1:
+            right = ast.Tuple(elts=args, ctx=ast.Load())
+        return _loc(ast.BinOp(left=ast.Constant(value=fmt), op=ast.Mod(), right=right), n)
+
+
 # --------------------------------------------------------------------------- N16 assignment expressions
 
 def _pure_env(e, env):
@@ -1067,6 +1190,11 @@ def normalise(tree, ctx=None, mname='', aliases=None, enabled=None):
 
     def bump(k):
         stats[k] = stats.get(k, 0) + 1
+    if on('N20'):
+        fs = _FStr()
+        fs.visit(tree)
+        if fs.count:
+            stats['N20'] = fs.count
     if on('N8'):
         _ExprCanon().visit(tree)
     keepf = ctx.get('keep_funcs')
@@ -1080,6 +1208,13 @@ def normalise(tree, ctx=None, mname='', aliases=None, enabled=None):
     if keepf is not None and on('N5x'):
         public_ok = (lambda nm: nm not in keepf and nm not in ctx.get('external', set())
                      and refs.get(nm, 0) == calls.get(nm, 0) and calls.get(nm, 0) > 0)
+    # `pass` next to other statements says nothing
+    for node_ in ast.walk(tree):
+        for fld in BLOCK_FIELDS:
+            b_ = getattr(node_, fld, None)
+            if isinstance(b_, list) and len(b_) > 1 and any(isinstance(x_, ast.Pass) for x_ in b_) and isinstance(b_[0], ast.stmt):
+                kept = [x_ for x_ in b_ if not isinstance(x_, ast.Pass)]
+                setattr(node_, fld, kept or [b_[0]])
     helpers = _expr_helpers(tree, public_ok) if on('N5') else {}
     foreign = ctx.get('xhelpers', {}) if on('N5x') else {}
     sigs = ctx.get('sigs', {}) if on('N14') else {}
@@ -1104,6 +1239,12 @@ def normalise(tree, ctx=None, mname='', aliases=None, enabled=None):
                 if inl.done:
                     bump('N5')
                     changed = True
+            if on('N19'):
+                k = 0
+                while k < 20 and _n19_collect(func):
+                    bump('N19')
+                    changed = True
+                    k += 1
             if on('N17') and _block_rewrite(func, _n17_update):
                 bump('N17')
                 changed = True
@@ -1116,6 +1257,9 @@ def normalise(tree, ctx=None, mname='', aliases=None, enabled=None):
                     bump('N16')
                     changed = True
                     k += 1
+            if on('N21') and _block_rewrite(func, _n21_whiletrue):
+                bump('N21')
+                changed = True
             if on('N13') and _block_rewrite(func, _n13_annassign):
                 bump('N13')
                 changed = True
@@ -1363,6 +1507,102 @@ def package_context(mods):
             'xhelpers': xhelpers}
 
 
+# --------------------------------------------------------------------------- N18 import style
+
+def canonicalise_imports(tree, pkg, modules, own):
+    """Rewrite the module so that every package module is known under its own name and every function / constant of
+    another package module is reached through it.  Returns the number of names rewritten."""
+    alias_map = {}      # local alias -> module
+    direct = {}         # local name -> (module, original name)
+    keep = []
+    changed = False
+    for st in tree.body:
+        if isinstance(st, ast.ImportFrom):
+            rel_pkg = (st.level >= 1 and not st.module) or (st.level == 0 and st.module == pkg)
+            sub = None
+            if st.level >= 1 and st.module in modules:
+                sub = st.module
+            elif st.level == 0 and st.module and st.module.startswith(pkg + '.') and st.module[len(pkg) + 1:] in modules:
+                sub = st.module[len(pkg) + 1:]
+            if rel_pkg and all(a.name in modules for a in st.names):
+                for a in st.names:
+                    if a.asname and a.asname != a.name:
+                        alias_map[a.asname] = a.name
+                        changed = True
+                    else:
+                        alias_map.setdefault(a.name, a.name)
+                continue
+            if sub is not None and sub != own and all(a.name != '*' for a in st.names):
+                for a in st.names:
+                    direct[a.asname or a.name] = (sub, a.name)
+                changed = True
+                continue
+        elif isinstance(st, ast.Import):
+            subs = [(a, a.name[len(pkg) + 1:]) for a in st.names if a.name.startswith(pkg + '.') and a.name[len(pkg) + 1:] in modules
+                    and a.asname]
+            if subs and len(subs) == len(st.names):
+                for a, m in subs:
+                    alias_map[a.asname] = m
+                changed = True
+                continue
+        keep.append(st)
+    if not changed:
+        return 0
+    needed = set(alias_map.values()) | set(m for (m, _) in direct.values())
+    # module-level bindings that would collide with a canonical module name: give up on that module
+    top_bound = set()
+    for st in keep:
+        if isinstance(st, (ast.FunctionDef, ast.ClassDef)):
+            top_bound.add(st.name)
+        elif isinstance(st, ast.Assign):
+            for t in st.targets:
+                top_bound |= set(n.id for n in ast.walk(t) if isinstance(n, ast.Name))
+    if needed & top_bound:
+        return 0
+    count = [0]
+
+    class _Imp(ast.NodeTransformer):
+        def __init__(self):
+            self.scopes = []
+
+        def visit_FunctionDef(self, n):
+            self.scopes.append(_locals_of(n))
+            self.generic_visit(n)
+            self.scopes.pop()
+            return n
+
+        def visit_Lambda(self, n):
+            self.scopes.append(set(a.arg for a in n.args.args))
+            self.generic_visit(n)
+            self.scopes.pop()
+            return n
+
+        def _bound(self, name):
+            return any(name in sc for sc in self.scopes)
+
+        def visit_Name(self, n):
+            if not isinstance(n.ctx, ast.Load) or self._bound(n.id):
+                return n
+            if n.id in alias_map and alias_map[n.id] != n.id and not self._bound(alias_map[n.id]):
+                count[0] += 1
+                return ast.copy_location(ast.Name(id=alias_map[n.id], ctx=ast.Load()), n)
+            if n.id in direct and not self._bound(direct[n.id][0]):
+                count[0] += 1
+                m, orig = direct[n.id]
+                return ast.copy_location(ast.Attribute(value=ast.Name(id=m, ctx=ast.Load()), attr=orig, ctx=ast.Load()), n)
+            return n
+    body = [_Imp().visit(st) for st in keep]
+    imp = ast.ImportFrom(module=None, names=[ast.alias(name=m, asname=None) for m in sorted(needed)], level=1)
+    # keep a leading docstring / __future__ imports in front
+    k = 0
+    while k < len(body) and ((isinstance(body[k], ast.Expr) and isinstance(body[k].value, ast.Constant)) or (
+            isinstance(body[k], ast.ImportFrom) and body[k].module == '__future__')):
+        k += 1
+    tree.body = body[:k] + [imp] + body[k:]
+    ast.fix_missing_locations(tree)
+    return count[0]
+
+
 # --------------------------------------------------------------------------- N11 named constants
 
 def module_constants(tree):
@@ -1382,8 +1622,8 @@ def module_constants(tree):
         if isinstance(n, (ast.Global,)):
             for nm in n.names:
                 counts[nm] = counts.get(nm, 0) + 2
-    return dict((k, v) for k, v in vals.items() if counts.get(k) == 1 and k.isupper() or
-                (counts.get(k) == 1 and k.upper() == k and any(c.isalpha() for c in k)))
+    # any spelling: MAX_RANK, _K_word, default_label ... (dunder names are module metadata, not program constants)
+    return dict((k, v) for k, v in vals.items() if counts.get(k) == 1 and not (k.startswith('__') and k.endswith('__')))
 
 
 class _Consts(ast.NodeTransformer):
